@@ -1,5 +1,5 @@
 from collections.abc import Sequence
-from dataclasses import dataclass
+from dataclasses import dataclass, replace
 from typing import Any
 
 import jax
@@ -359,7 +359,9 @@ def optim_flat(
     user_patience = stopper.patience
     if model_validation is None:
         model_validation = model_train
-        stopper.patience = stopper.max_iter
+        # work on a copy: the caller's stopper must not stay modified if anything
+        # below raises before the patience is restored
+        stopper = replace(stopper, patience=stopper.max_iter)
 
     if optimizer is None:
         optimizer = optax.adam(learning_rate=1e-2)
